@@ -23,7 +23,8 @@ func init() {
 	})
 	register(&Rule{
 		ID: "MON-1",
-		Doc: "monitor non-interference: monitor globals are read only in package monitor; every function of package monitor called from another module package has no result and modifies nothing but the monitor globals; " +
+		Doc: "monitor non-interference: monitor globals are read only in package monitor; every function of package monitor called from another module package has no result and modifies nothing but the monitor globals " +
+			"(a boolean query is tolerated when its result is used only as a branch condition and everything control-dependent on that branch is log-only: no store into pre-existing memory, no map update, no early return, no call that modifies state or is not known to be pure, and no value computed there used outside); " +
 			"under the m != nil guards only Monitor.Log and Phase()/String() of the algorithm values are invoked, and those have empty modification sets; the options.monitor field flows only into monitor.Set",
 		Floor: 8,
 		Ctl:   []string{"internal__monitor__mon1.go.txt", "internal__phase1__mon1caller.go.txt"}, MinCtl: 1,
@@ -422,7 +423,20 @@ func runMon1(m *Model, r *RuleResult) {
 			}
 		}
 		if res.Len() > 0 && !isCtor {
-			problems = append(problems, "returns a value to the pipeline ("+res.String()+"): monitor state can influence the layout")
+			// a boolean query ("is anybody listening?") is harmless when all it controls is logging
+			okQuery := false
+			if b, isB := res.At(0).Type().Underlying().(*types.Basic); isB && res.Len() == 1 && b.Kind() == types.Bool {
+				okQuery = true
+				for _, ci := range called[f] {
+					if why := logOnlyRegion(m, ci, monPkg); why != "" {
+						okQuery = false
+						problems = append(problems, "its result steers more than logging at "+m.Pos(ci.Pos())+": "+why)
+					}
+				}
+			}
+			if !okQuery {
+				problems = append(problems, "returns a value to the pipeline ("+res.String()+"): monitor state can influence the layout")
+			}
 		}
 		e := m.effects[f]
 		for _, l := range modList(e) {
@@ -534,7 +548,7 @@ func runMon1(m *Model, r *RuleResult) {
 			if refs := loaded.Referrers(); refs != nil {
 				for _, ref := range *refs {
 					if ci, ok := ref.(ssa.CallInstruction); ok {
-						if cal := ci.Common().StaticCallee(); cal != nil && pkgPathOf(cal) == monPkg && cal.Name() == "Set" {
+						if cal := ci.Common().StaticCallee(); cal != nil && pkgPathOf(cal) == monPkg && cal == m.anchorMonitorSet() {
 							continue
 						}
 					}
@@ -560,8 +574,8 @@ func runMon1(m *Model, r *RuleResult) {
 
 func runOrd1(m *Model, r *RuleResult) {
 	monPkg := modPath + "/internal/monitor"
-	set := m.SSAFunc("internal/monitor", "Set")
-	reset := m.SSAFunc("internal/monitor", "Reset")
+	set := m.anchorMonitorSet()
+	reset := m.anchorMonitorReset()
 	layout := m.SSAFunc("autog", "Layout")
 	if set == nil || reset == nil || layout == nil {
 		r.undecided("anchors", "-", "monitor.Set / monitor.Reset / autog.Layout", "anchor function not found")
@@ -742,4 +756,129 @@ func runOwn2(m *Model, r *RuleResult) {
 				Detail: "phases 1-3 must be independent of lengths (unit independence, monitor and ownership arguments): reads " + strings.Join(bad, ", "), Control: ctl})
 		}
 	}
+}
+
+// logOnlyRegion: the boolean result of the monitor query at site ci is used only as a branch condition, and everything that
+// is control-dependent on that branch only computes values and calls package monitor: no store into memory that existed before,
+// no map update, no call that modifies anything, no in-place library routine, and no value computed there is used outside.
+// Returns "" when that holds, else the reason.
+func logOnlyRegion(m *Model, ci ssa.CallInstruction, monPkg string) string {
+	v := ci.Value()
+	if v == nil || v.Referrers() == nil {
+		return ""
+	}
+	var ifs []*ssa.If
+	var collect func(x ssa.Value, depth int) string
+	collect = func(x ssa.Value, depth int) string {
+		if x.Referrers() == nil || depth > 3 {
+			return ""
+		}
+		for _, ref := range *x.Referrers() {
+			switch y := ref.(type) {
+			case *ssa.If:
+				ifs = append(ifs, y)
+			case *ssa.UnOp:
+				if y.Op != token.NOT {
+					return "the result is used by " + y.String()
+				}
+				if why := collect(y, depth+1); why != "" {
+					return why
+				}
+			case *ssa.DebugRef:
+			default:
+				return fmt.Sprintf("the result is used by %T at %s, not only as a branch condition", ref, m.Pos(ref.Pos()))
+			}
+		}
+		return ""
+	}
+	if why := collect(v, 0); why != "" {
+		return why
+	}
+	fn := ci.Parent()
+	region := map[*ssa.BasicBlock]bool{}
+	for _, b := range fn.Blocks {
+		for _, d := range transitiveControlDeps(b) {
+			for _, iff := range ifs {
+				if d.If == iff {
+					region[b] = true
+				}
+			}
+		}
+	}
+	pureExt := func(full string) bool {
+		switch {
+		case strings.HasPrefix(full, "fmt.Sprint"), strings.HasPrefix(full, "strconv."), full == "strings.Join", full == "strings.Repeat", full == "slices.Clone", strings.HasPrefix(full, "math."):
+			return true
+		}
+		return false
+	}
+	m.fxInit()
+	for b := range region {
+		for _, in := range b.Instrs {
+			switch x := in.(type) {
+			case *ssa.Store:
+				// only into memory allocated inside the region (argument packing)
+				base := x.Addr
+				for {
+					switch a := base.(type) {
+					case *ssa.IndexAddr:
+						base = a.X
+						continue
+					case *ssa.FieldAddr:
+						base = a.X
+						continue
+					}
+					break
+				}
+				if al, ok := base.(*ssa.Alloc); !ok || !region[al.Block()] {
+					return "store at " + m.Pos(x.Pos())
+				}
+			case *ssa.MapUpdate:
+				return "map update at " + m.Pos(x.Pos())
+			case *ssa.Send, *ssa.Go, *ssa.Defer, *ssa.Panic:
+				return fmt.Sprintf("%T at %s", in, m.Pos(in.Pos()))
+			case *ssa.Return:
+				return "return at " + m.Pos(x.Pos()) + " (the function ends early when a monitor is present or absent)"
+			case ssa.CallInstruction:
+				c := x.Common()
+				if bi, ok := c.Value.(*ssa.Builtin); ok {
+					switch bi.Name() {
+					case "len", "cap", "min", "max":
+						continue
+					}
+					return "builtin " + bi.Name() + " at " + m.Pos(in.Pos())
+				}
+				for _, cal := range m.Callees(x) {
+					if pkgPathOf(cal) == monPkg {
+						continue
+					}
+					if inModule(cal) {
+						e := m.effects[cal]
+						if e == nil || len(modList(e)) > 0 || len(e.ParamWrites) > 0 || len(e.GlobalsMod) > 0 {
+							return "call of " + funcKey(cal) + " at " + m.Pos(in.Pos()) + ", which modifies state"
+						}
+						continue
+					}
+					if _, full := extFuncName(cal); !pureExt(full) {
+						return "call of " + full + " at " + m.Pos(in.Pos()) + " (not known to be free of side effects)"
+					}
+				}
+				if len(m.Callees(x)) == 0 {
+					return "unresolved call at " + m.Pos(in.Pos())
+				}
+			}
+			// no value computed in the region is used outside of it
+			if val, ok := in.(ssa.Value); ok && val.Referrers() != nil {
+				for _, ref := range *val.Referrers() {
+					if _, isDbg := ref.(*ssa.DebugRef); isDbg {
+						continue
+					}
+					if rb := ref.Block(); rb != nil && !region[rb] {
+						return "a value computed under the query (" + m.Pos(in.Pos()) + ") is used outside of it at " + m.Pos(ref.Pos())
+					}
+				}
+			}
+		}
+	}
+	return ""
 }
